@@ -86,7 +86,7 @@ def ascending : List Nat → Bool
 
 /-- C01/C02 as an executable check on what one consumer decoded: every message is a published one and
     the sequence is  H ++ G ++ L  with H = cached headers (metadata, video header, audio header, each at
-    most once, in that order), G = replayed GOP frames (ascending), L = one contiguous duplicate-free
+    most once, in that order) followed by the headers published while the consumer waits for a key frame, G = replayed GOP frames (ascending), L = one contiguous duplicate-free
     run; everything in H and G precedes L, and between the first replayed frame and L only header
     messages and (when a per-GOP cap is configured) non-key frames may be missing. -/
 def contiguousRun (cap : Nat) (pub : List (Nat × Nat × Bytes)) (got : List (Nat × Nat × Bytes)) : String :=
@@ -99,7 +99,9 @@ def contiguousRun (cap : Nat) (pub : List (Nat × Nat × Bytes)) (got : List (Na
       let H := idx.take h
       let G := (idx.drop h).take g
       let L := idx.drop (h + g)
-      let hdrOk := H.all (fun i => isHeaderMsg (msgAt i)) && ascending (H.map fun i => hdrClass (msgAt i))
+      -- cached headers (one per class, class order) then headers forwarded while waiting (publish order)
+      let hdrOk := H.all (fun i => isHeaderMsg (msgAt i)) &&
+        (List.range (min 3 H.length + 1)).any (fun c => ascending ((H.take c).map fun i => hdrClass (msgAt i)) && ascending (H.drop c))
       let gOk := ascending G && G.all (fun i => !isHeaderMsg (msgAt i))
       let lOk := consecutive L
       let before := match L with
@@ -117,7 +119,7 @@ def contiguousRun (cap : Nat) (pub : List (Nat × Nat × Bytes)) (got : List (Na
             let n := if Classify.isVideoKeyNalu (msgAt i).1 (msgAt i).2.2 then 1 else acc.1 + 1
             (n, acc.2 && n ≤ cap)) (0, true)).2
       hdrOk && gOk && lOk && before && gapOk && capOk
-    if (List.range (min 3 n + 1)).any fun h => (List.range (n - h + 1)).any fun g => okSplit h g
+    if (List.range (n + 1)).any fun h => (List.range (n - h + 1)).any fun g => okSplit h g
     then "ok" else "bad:not-headers-then-gop-replay-then-one-contiguous-run"
 
 /-- C02 "a consumer of a stream that currently has no video is never held back": the first message
@@ -138,6 +140,39 @@ def neverHeldBack (evs : List Ev) (k : Kind) (id : Nat) (got : List (Nat × Nat 
       let ok' := if here && !vid && !isV then ok && got.contains (m.typ, m.ts, withoutSdf m.typ m.payload) else ok
       (on, vid || isV, here, ok')) (false, false, false, true)
   r.2.2.2
+
+/-- incarnation number of every published message (same filter as `published`) -/
+def publishedInc (evs : List Ev) : List Nat :=
+  (evs.foldl (fun (acc : Bool × Nat × List Nat) e =>
+    match e with
+    | .addPub => if acc.1 then acc else (true, acc.2.1 + 1, acc.2.2)
+    | .delPub => (false, acc.2.1, acc.2.2)
+    | .msg m => if acc.1 && !m.payload.isEmpty then (acc.1, acc.2.1, acc.2.2 ++ [acc.2.1]) else acc
+    | _ => acc) (false, 0, [])).2.2
+
+/-- C02 "every frame is preceded by a sequence header with the same content as the one in force when
+    that frame was published": walk what the consumer decoded; for each audio / video frame compare the
+    last sequence header of its kind the consumer has seen with the last one published before the frame
+    in the same incarnation. -/
+def seqHdrInForce (pub : List (Nat × Nat × Bytes)) (inc : List Nat) (got : List (Nat × Nat × Bytes)) : Bool :=
+  match got.mapM (indexOf? pub) with
+  | none => true
+  | some idx =>
+    let msgAt (i : Nat) : Nat × Nat × Bytes := pub.getD i (0, 0, [])
+    let inForce (isHdr : Nat × Nat × Bytes → Bool) (i : Nat) : Option Bytes :=
+      ((List.range i).reverse.find? fun j => inc.getD j 0 == inc.getD i 0 && isHdr (msgAt j)).map fun j => (msgAt j).2.2
+    let isV (x : Nat × Nat × Bytes) : Bool := Classify.isVideoKeySeqHeader x.1 x.2.2
+    let isA (x : Nat × Nat × Bytes) : Bool := Classify.isAacSeqHeader x.1 x.2.2
+    (idx.foldl (fun (acc : Option Bytes × Option Bytes × Bool) i =>
+      let (lv, la, ok) := acc
+      let x := msgAt i
+      if isV x then (some x.2.2, la, ok)
+      else if isA x then (lv, some x.2.2, ok)
+      else if x.1 == 9 then
+        (lv, la, ok && (match inForce isV i with | none => true | some h => lv == some h))
+      else if x.1 == 8 then
+        (lv, la, ok && (match inForce isA i with | none => true | some h => la == some h))
+      else acc) (none, none, true)).2.2
 
 def decodeRtmp (b : Bytes) : Option (List (Nat × Nat × Bytes)) :=
   (ChunkSpec.read Gen.localChunkSize b).map fun ms => ms.map fun m => (m.typ, m.ts, m.payload)
@@ -166,6 +201,10 @@ def oracle (cfg : Cfg) (evs : List Ev) (impl : String) : String :=
         let idn := nat! (k.drop 1).toString
         if kk != .record && (kk != .rtmp || cfg.mergeSize == 0) && !neverHeldBack evs kk idn got then
           "bad:held-back-although-the-stream-has-no-video:" ++ k else
+        -- a protocol whose server is disabled has no cache and, in a real server, no subscribers
+        let cached := if kk == .rtmp then cfg.rtmpCache else cfg.flvCache
+        if kk != .record && cached && !seqHdrInForce pub (publishedInc evs) got then
+          "bad:frame-not-preceded-by-the-sequence-header-in-force:" ++ k else
         let v := contiguousRun (if k.startsWith "r" then cfg.rtmpCap else if k.startsWith "R" then 0 else cfg.flvCap) pub got; if v.startsWith "bad" then v ++ ":" ++ k else v
     | _ => "bad:unparsable"
   (verdicts.find? (·.startsWith "bad")).getD "ok"
